@@ -120,7 +120,7 @@ void NLW2_SetWarmstart_C(NLW2_NLModel_C* nlme,
 
 void NLW2_SetDualWarmstart_C(NLW2_NLModel_C* nlme,
                              NLW2_SparseVector_C ini_y)
-{ CastNZ<mp::NLModel>(nlme->p_data_)->SetWarmstart(ini_y); }
+{ CastNZ<mp::NLModel>(nlme->p_data_)->SetDualWarmstart(ini_y); }
 
 int NLW2_AddSuffix_C(NLW2_NLModel_C* nlme,
                      NLW2_NLSuffix_C suf_c) {
